@@ -72,6 +72,28 @@ def run(chk, tier):
     kinds = sorted(common.tagged(r.prints, "KINDS")[0])
     strategies = sorted(common.tagged(r.prints, "STRATEGIES")[0])
     rule = {(x["sat"], x["strategy"]): x["expect"] for x in common.tagged(r.prints, "RULE")[0]}
+    # ---- copy forest -> sigma: model (all connect sequences) and replay on the real builder
+    for cfgname, name in ([("CopyForest_2", "CopyForest: all ordered connect sequences of length 2")]
+                          + ([("CopyForest_3", "CopyForest: all connect sequences of length 3")] if thorough else [])):
+        rf = common.tlc("CopyForest", cfg=cfgname, workers=4, timeout=1500, tag=cfgname)
+        if not rf.ok:
+            raise ToolError("spec CopyForest violates %s" % rf.violated)
+        chk.add_tlc(name, rf)
+        fp = os.path.join(common.OUT, "c02_%s.ndjson" % cfgname)
+        fsc = common.tagged(rf.prints, "FOREST")
+        common.write_ndjson(fp, fsc)
+        fo = common.vh(["forest", "--in", fp], binname=BIN, env={"RAYON_NUM_THREADS": "3"})[-1]
+        chk.evaluations += fo["scenarios"]
+        chk.traces += fo["scenarios"] - len(fo["mismatches"])
+        chk.extra.setdefault("forest_scenarios_replayed", 0)
+        chk.extra["forest_scenarios_replayed"] += fo["scenarios"]
+        for m in fo["mismatches"]:
+            chk.violation("C02/copy-forest/%s" % json.dumps(m["scenario"]["connects"]),
+                          "copy classes / sigma cycles of the built circuit differ from the connect closure: %s" % (m.get("detail") or m.get("panic")),
+                          {"forest_scenario": m["scenario"], "observed": m, "expected": "representative map = equivalence closure; sigma = one cycle per class"})
+    for can in ("merge", "sigma"):
+        rc = common.tlc("CopyForest", cfg="CopyForest_canary_" + can, workers=2, timeout=600, tag="cfcan" + can)
+        chk.canary("CopyForest mutant %s violates an invariant (TLC counterexample)" % can, rc.violated is not None)
     # ---- programs and configurations from the C01 models
     p1 = c01.tlc_programs(chk, "Programs_len1", "Programs: all one-instruction programs")
     psim = c01.tlc_programs(chk, "Programs_sim", "Programs: simulated programs", simulate=300, depth=13, exhaustive=False)
@@ -167,6 +189,12 @@ def replay(path):
     p = json.load(open(path))
     s = dict(p["scenario"])
     print(json.dumps(p, indent=1)[:2500])
+    if "forest_scenario" in p:
+        fp = os.path.join(common.OUT, "c02_replay_forest.ndjson")
+        common.write_ndjson(fp, [p["forest_scenario"]])
+        fo = common.vh(["forest", "--in", fp], binname=BIN)[-1]
+        print("re-run:", json.dumps(fo)[:800])
+        return 1 if fo["mismatches"] else 0
     if "corruption" not in p:
         return c01.replay(path)
     s["kinds"] = [p["corruption"]["kind"], "none"]
